@@ -55,6 +55,17 @@ TFoldM == /\ Is("FoldM") /\ Adv /\ UNCHANGED <<ivars, other, pulled0, lazyCheck>
              \/ LET k == FirstStop(rem, Ev.stop)
                 IN /\ Ev.failed = (k # 0)
                    /\ (~Ev.partial => Ev.out = (IF k = 0 THEN rem ELSE SubSeq(rem, 1, k - 1)))
+\* Min / Max under a coarse order (key (v + 100) \div 2): none on the empty output, otherwise the LAST element among those
+\* with the extreme key - what the eager fold of seq.Min / seq.Max yields; iterator, list and seq must agree on it
+CoarseKey(v) == (v + 100) \div 2
+LastWith(s, k) == s[CHOOSE i \in DOMAIN s : CoarseKey(s[i]) = k /\ \A j \in (i + 1)..Len(s) : CoarseKey(s[j]) # k]
+TExtreme == /\ Is("Extreme") /\ Adv /\ UNCHANGED <<ivars, other, pulled0, lazyCheck>>
+            /\ \/ unord
+               \/ IF rem = <<>> THEN Ev.out = <<>>
+                  ELSE LET ks == {CoarseKey(rem[i]) : i \in DOMAIN rem}
+                           mn == CHOOSE k \in ks : \A k2 \in ks : k <= k2
+                           mx == CHOOSE k \in ks : \A k2 \in ks : k >= k2
+                       IN Ev.out = <<LastWith(rem, IF Ev.op \in {"iterator.Min", "list.Min", "seq.Min"} THEN mn ELSE mx)>>
 TCount == Is("Count") /\ Ev.n = Len(rem) /\ Adv /\ UNCHANGED <<ivars, other, pulled0, lazyCheck>>
 \* a lazy List walked cell by cell in any order of Head / IsEmpty / Tail: cell pos holds element pos + 1 of the output
 TList  == /\ Is("List") /\ Adv /\ UNCHANGED <<ivars, other, pulled0, lazyCheck>>
@@ -64,7 +75,7 @@ TList  == /\ Is("List") /\ Adv /\ UNCHANGED <<ivars, other, pulled0, lazyCheck>>
 TGen   == Is("GenCalls") /\ Ev.max <= 1 /\ Ev.pulled <= Ev.srclen /\ Adv /\ UNCHANGED <<ivars, other, pulled0, lazyCheck>>
 TEnd   == Is("End") /\ Adv /\ UNCHANGED <<ivars, other, pulled0, lazyCheck>>
 
-TNext0 == TReset \/ THas \/ TNext \/ THasR \/ TNextR \/ TBudget \/ TWhole \/ TFoldM \/ TCount \/ TList \/ TGen \/ TEnd
+TNext0 == TReset \/ THas \/ TNext \/ THasR \/ TNextR \/ TBudget \/ TWhole \/ TFoldM \/ TExtreme \/ TCount \/ TList \/ TGen \/ TEnd
 TSpec == TInit /\ [][TNext0]_tvars
 
 HighWater == TLCSet(1, IF TLCGet(1) < l THEN l ELSE TLCGet(1))
